@@ -93,6 +93,7 @@ type Obligation struct {
 }
 
 type FuncTr struct {
+	localArr map[string]*Term // slice value (term) -> id of its array, for arrays made here that have not escaped
 	lateCells map[*ssa.Alloc]bool
 	bindHit map[int]bool
 	anchorHit map[int]bool // anchored assertions that matched at least one call
@@ -790,9 +791,13 @@ func (ft *FuncTr) run() error {
 			Implies(Le(ft.h.nextID(ft.init), PObjID(hp)), Eq(Select(h0, hp), IntLit(0)))), []*Term{Select(h0, hp)}))
 	}
 	// parameters
-	for _, p := range fn.Params {
+	for pi, p := range fn.Params {
 		s := ft.w.sortOf(ft.d, p.Type())
-		t := ft.d.Const("p_"+sanitize(p.Name()), s)
+		pname := "p_" + sanitize(p.Name())
+		if p.Name() == "_" || p.Name() == "" {
+			pname = fmt.Sprintf("p_blank%d", pi) // several blank parameters may have different sorts
+		}
+		t := ft.d.Const(pname, s)
 		ft.vals[p] = Val{T: t}
 		ft.params[p.Name()] = SV{T: t, Ty: p.Type()}
 		ft.assumeRaw(ft.typeInv(ft.init, t, p.Type()))
@@ -1005,6 +1010,11 @@ func (ft *FuncTr) mergeStates(b *ssa.BasicBlock, es []Edge) *State {
 			ft.assume(e.cond, Eq(nv, ts[i]))
 		}
 		st.heap[k] = nv
+		var ecs []*Term
+		for _, e := range es {
+			ecs = append(ecs, e.cond)
+		}
+		ft.h.noteMergeHop(nv, ts, ecs)
 	}
 	gk := map[string]*Sort{}
 	for _, e := range es {
@@ -1471,8 +1481,23 @@ func (ft *FuncTr) store(st *State, at *Term, pv Val, ty types.Type, v *Term, pos
 	}
 	if pv.FieldOf != nil {
 		ft.assertNonNil(at, pv.FieldOf.base, what, "pointer must not be nil", pos)
-		ft.onWrite(st, at, ft.w.fieldArrName(pv.FieldOf.sty, pv.FieldOf.idx), pv.FieldOf.base, pos)
+		fname := ft.w.fieldArrName(pv.FieldOf.sty, pv.FieldOf.idx)
+		ft.onWrite(st, at, fname, pv.FieldOf.base, pos)
+		// escape / provenance as for plain stores (see below)
+		id, local := ft.allocID[rootTerm(pv.FieldOf.base.S)]
+		if !local && pointerLike(v.Sort) {
+			ft.leak()
+		}
+		var fbefore *Term
+		if local {
+			fbefore = st.heap[fname]
+		}
 		ft.h.writeField(st, pv.FieldOf.base, pv.FieldOf.sty, pv.FieldOf.idx, v)
+		if local && fbefore != nil {
+			if a, ok := st.heap[fname]; ok && a.S != fbefore.S {
+				ft.h.noteFreshFrame(fbefore, a, id)
+			}
+		}
 		return
 	}
 	if pv.T == nil {
@@ -1677,6 +1702,9 @@ func pointerLike(s *Sort) bool {
 func (ft *FuncTr) leak() {
 	for k := range ft.allocID {
 		delete(ft.allocID, k)
+	}
+	for k := range ft.localArr {
+		delete(ft.localArr, k)
 	}
 }
 
